@@ -15,6 +15,8 @@ for pid in sorted(P.PROPS):
     out.append("* **%s** — %s. Module `%s`." % (pid, c["title"], c["module"]))
     out.append("  Theorems (%d): %s." % (len(c["theorems"]), ", ".join("`%s`" % short(t) for t in c["theorems"])))
     out.append("  Ties (%d): %s." % (len(c.get("ties", [])), ", ".join("`%s`" % short(t) for t in c.get("ties", []))))
+    nfn = len(P.ties_for(pid)) - len(c.get("ties", []))
+    out.append("  Function-text ties (%d): one digest lemma per function the property's model transcribes (`TieRust.rustfn_*_eq` / `TieSrc.srcfn_*_eq`; the lists are `property_functions` in `tools/rustfn_snapshot.json` / `tools/srcfn_snapshot.json`)." % nfn)
     su = []
     for x in c["suites"]:
         t = "%s/%s (quick %s, thorough %s%s)" % (x["kind"], x["suite"], x["quick"].get("cases"), x["thorough"].get("cases"),
